@@ -211,6 +211,50 @@ def run(ctx):
                 h.tr.close()
                 for line, want, out, c in h.tr.check(ctx.driver)[:2]:
                     res.mismatch('miter (%s %s)' % (c['ep'], c['event']), MC.first_diff(want, out)[:300], out[:120])
+    # every IKE_SA that is not yet established counts as half open, whatever its role and stage: a mixed population at the boundary
+    for own_state in (2, 3):
+        threshold = 2
+        seed = rng.randrange(1 << 30)
+        ca, cb = conf_pair()
+        with CP.History(seed, trace=False, conf_a=ca, conf_b=cb) as h:
+            w = h.w
+            w.B.controller.cookie_threshold = threshold
+            # one own initiator IKE_SA of B, stopped in INIT_REQ_SENT (2) or AUTH_REQ_SENT (3)
+            h.op('acquire', 'B', 8765)
+            if own_state == 3:
+                h.op('deliver', w.net[0].id)          # -> A: IKE_SA_INIT response
+                h.op('deliver', w.net[0].id)          # -> B: sends IKE_AUTH, waits
+            w.net.clear()
+            own = [s for s in w.B.sas() if s.is_initiator]
+            if not own or int(own[0].state) != own_state:
+                res.count('mixed-population:not-reached')
+                continue
+            # one half-open responder IKE_SA, then the request under test: 1 + 1 + 1 > 2
+            for a in list(w.A.controller.ike_sas):
+                w.A.controller.ike_sas.remove(a)
+            h.op('acquire', 'A', 8765)
+            base = w.net[0]
+            w.net.clear()
+            d = bytearray(base.data)
+            d[0:8] = rng.rbytes(8)
+            w.inject(w.B, bytes(d), src=W.IP_A)
+            w.net.clear()
+            half_open = sum(1 for s in w.B.sas() if int(s.state) < 10)
+            sent0, table0 = len(w.sent), len(w.B.sas())
+            n_dh = dh_calls(lambda: w.inject(w.B, base.data, src=W.IP_A))
+            replies = [x for x in w.sent[sent0:] if x.sender == 'B']
+            res.evaluations += 1
+            res.nontrivial.add(('mixed', own_state))
+            res.count('responder:mixed-population-%d' % own_state)
+            rep = {'seed': seed, 'threshold': threshold, 'half_open_before': half_open, 'variant': 'absent, one own initiator IKE_SA in state %d' % own_state}
+            if half_open != 2 or not replies:
+                res.count('mixed-population:not-reached')
+                continue
+            kinds, msg = notify_types(replies[-1].data)
+            if kinds != [(41, COOKIE)] or n_dh or len(w.B.sas()) != table0:
+                res.fail('half-open-not-counted', 'with %d IKE_SAs that are not established (one of them an own initiator IKE_SA in %s) and threshold %d a '
+                         'request without cookie was served: reply %s, %d DH computation(s), table %d -> %d'
+                         % (half_open, CP.ST[own_state], threshold, kinds, n_dh, table0, len(w.B.sas())), rep)
     res.sample({'cookie variants': ['absent', 'correct', 'corrupted', 'truncated', 'other-spi', 'other-nonce', 'other-address', 'two-correct-first',
                                     'two-wrong-first']})
     return res
